@@ -4,7 +4,7 @@ cd /verif
 PROPS="${@:-$(/venv/bin/python -c "import json;print(' '.join(c['property_id'] for c in json.load(open('MANIFEST.json'))['checks']))")}"
 for P in $PROPS; do
   s=$(date +%s)
-  ./check $P --tier "${TIER:-quick}" > /tmp/runall.$P.log 2>&1; rc=$?
+  ./check $P --tier "${TIER:-quick}" > /tmp/runall.${TAG:-q}.$P.log 2>&1; rc=$?
   e=$(date +%s)
-  echo "$P exit=$rc wall=$((e-s))s known=$(grep -c '^KNOWN-FINDING' /tmp/runall.$P.log) viol=$(grep -c '^VIOLATION' /tmp/runall.$P.log) :: $(tail -1 /tmp/runall.$P.log | cut -c1-160)"
+  echo "$P exit=$rc wall=$((e-s))s known=$(grep -c '^KNOWN-FINDING' /tmp/runall.${TAG:-q}.$P.log) viol=$(grep -c '^VIOLATION' /tmp/runall.${TAG:-q}.$P.log) :: $(tail -1 /tmp/runall.${TAG:-q}.$P.log | cut -c1-160)"
 done
